@@ -28,6 +28,11 @@ type entry struct {
 	// Method / At: for query parameters declared on the path item (default: GET /q<ID>)
 	Method string `json:"method,omitempty"`
 	At     string `json:"at,omitempty"`
+	// object-shaped parameters (kind objparam): the cell and whether the parameter is required
+	In       string `json:"in,omitempty"`
+	Style    string `json:"style,omitempty"`
+	Explode  bool   `json:"explode,omitempty"`
+	Required bool   `json:"required,omitempty"`
 }
 
 const pyCross = `
@@ -105,8 +110,8 @@ func main() {
 			{"get", []any{M{"name": "v", "in": "query", "required": true, "schema": b}}, b}, // overrides, first
 			{"put", nil, a}, // inherits
 			{"post", []any{M{"name": "w", "in": "query", "schema": M{"type": "integer"}}, M{"name": "v", "in": "query", "required": true, "schema": b}}, b}, // overrides after a parameter of its own
-			{"delete", []any{M{"name": "w", "in": "header", "schema": M{"type": "string"}}}, a}, // inherits, with a parameter of its own
-			{"patch", []any{M{"name": "u", "in": "query", "schema": M{"type": "integer"}}}, a}, // overrides the other one
+			{"delete", []any{M{"name": "w", "in": "header", "schema": M{"type": "string"}}}, a},                                                             // inherits, with a parameter of its own
+			{"patch", []any{M{"name": "u", "in": "query", "schema": M{"type": "integer"}}}, a},                                                              // overrides the other one
 		} {
 			id := len(entries)
 			entries = append(entries, entry{ID: id, Kind: "query", Schema: m.schema, Method: strings.ToUpper(m.method), At: at})
@@ -117,6 +122,34 @@ func main() {
 			item[m.method] = o
 		}
 		paths[at] = item
+	}
+	// object-shaped parameters: a flat object {p: integer <= 5, q: string of at most 2} with every
+	// subset of its members required, in every cell that carries objects, as a required and as an
+	// optional parameter.  The driver sends every subset of members (valid and invalid values) and no
+	// parameter at all: a parameter of which some member is there is present and must satisfy the schema
+	for _, cell := range []struct {
+		in, style string
+		explode   bool
+	}{{"query", "form", true}, {"query", "form", false}, {"query", "deepObject", true}, {"header", "simple", false}, {"header", "simple", true}, {"cookie", "form", false}, {"path", "simple", false}, {"path", "simple", true}} {
+		for _, req := range [][]any{nil, {"p"}, {"q"}, {"p", "q"}} {
+			for _, required := range []bool{true, false} {
+				if cell.in == "path" && !required {
+					continue
+				}
+				sch := M{"type": "object", "properties": M{"p": M{"type": "integer", "maximum": 5}, "q": M{"type": "string", "maxLength": 2}}}
+				if req != nil {
+					sch["required"] = req
+				}
+				id := len(entries)
+				entries = append(entries, entry{ID: id, Kind: "objparam", Schema: sch, In: cell.in, Style: cell.style, Explode: cell.explode, Required: required})
+				at := fmt.Sprintf("/o%d", id)
+				if cell.in == "path" {
+					at += "/{v}"
+				}
+				paths[at] = M{"get": M{"operationId": fmt.Sprintf("op%d", id), "responses": M{"200": M{"description": "ok"}},
+					"parameters": []any{M{"name": "v", "in": cell.in, "style": cell.style, "explode": cell.explode, "required": required, "schema": sch}}}}
+			}
+		}
 	}
 	spec := M{"openapi": "3.0.3", "info": M{"title": "t", "version": "1"}, "paths": paths, "components": M{"schemas": comps}}
 	data, _ := json.Marshal(spec)
